@@ -175,10 +175,11 @@ where
 /// off by one only at particular bit lengths. For a set of radices: r^k - 1, r^k, r^k + 1 for the
 /// exponents k with r^k representable, and 2^b - 1, 2^b for the bit lengths b - all of them on types
 /// up to 1088 bits, a spread selection on
-/// wider types in the quick tier, all of them in the thorough tier.
+/// wider types (four times denser in the thorough tier).
 fn length_sweep(sh: Shape, signed: bool, full: bool) -> Vec<(Pat, u32)> {
     let w = sh.bits() as u64;
-    let wide = w > 1100 && !full;
+    let wide = w > 1100;
+    let (dense_n, sparse_n, bstep) = if full { (480, 64, 10) } else { (120, 16, 41) };
     let maxbits = if signed { w - 1 } else { w };
     let mut out = Vec::new();
     let wrap = |z: &Z| Pat(z.to_le_wrapped(sh.bytes));
@@ -186,7 +187,7 @@ fn length_sweep(sh: Shape, signed: bool, full: bool) -> Vec<(Pat, u32)> {
         let r = Z::from_u64(radix as u64);
         // exponents: all, or a spread selection
         let kmax = (maxbits as f64 / (radix as f64).log2()) as u32 + 1;
-        let stride = if !wide { 1 } else if dense { (kmax / 120).max(1) } else { (kmax / 16).max(1) };
+        let stride = if !wide { 1 } else if dense { (kmax / dense_n).max(1) } else { (kmax / sparse_n).max(1) };
         let mut p = Z::one();
         let mut k = 0u32;
         while p.bit_len() <= maxbits {
@@ -206,7 +207,7 @@ fn length_sweep(sh: Shape, signed: bool, full: bool) -> Vec<(Pat, u32)> {
         }
     }
     // every bit length: the largest and the smallest value of that length, in decimal (and base 3 on the narrower types)
-    let bstride = if wide { 41 } else { 1 };
+    let bstride = if wide { bstep } else { 1 };
     for b in (1..=maxbits).filter(|b| b % bstride == 0 || *b + 3 >= maxbits) {
         let hi = Z::pow2(b).add_i(-1);
         let lo = Z::pow2(b - 1);
@@ -261,7 +262,7 @@ fn main() {
     runner::main(
         Property {
             id: "C11",
-            rule: "Every radix 2..=256 in every run (radices <= 36 and powers of two weighted x3). Values: structured W-bit patterns; sums c_i*(r^p)^i with many chunks c_i in {0, 1, r^p-1} for the chunk sizes p implied by the digit size and half the digit size (interior zero chunks); r^j and r^j+-1; quotient-structured values q*(r^p)^m + rem with q a structured binary pattern (zero / extreme binary digits in the running quotient); single-digit values; boundary values (MAX, MIN, -1, 0); values built from whole-digit or half-digit binary chunks that are small multiples of the conversion base r^p or miss it by one (the partial dividend of a short-division step equals the divisor). Oracle: the canonical numeral from the reference integer by repeated single-limb division (lowercase, no leading zeros, '0' for zero, '-' + magnitude for negatives; the two's-complement pattern for to_radix_be/le of signed types), plus the round trips through from_str_radix / from_radix_be / from_radix_le; out-of-range radices {0, 1, 37, 257, 258, 65536, u32::MAX} panic and in-range ones never do. A deterministic NUMERAL-LENGTH SWEEP per configuration adds r^k - 1, r^k, r^k + 1 (both signs for signed types) for every exponent k with r^k representable and the radices {10, 3, 6, 7, 12, 36, 100, 255}, and 2^b - 1, 2^(b-1) for every bit length b in decimal (base 3 as well up to 1088 bits) - all exponents and bit lengths on types up to 1088 bits, a spread selection on wider types in the quick tier (about 120 decimal exponents, 16 exponents of the other radices, every 41st bit length), all of them in the thorough tier; these are the inputs on which a length estimate derived from the bit length is off by one. NON-TRIVIAL: the output has >= 3 digits. distinct = distinct (profile, job, inputs) by 64-bit hash. 8-bit configuration: all values x all radices.",
+            rule: "Every radix 2..=256 in every run (radices <= 36 and powers of two weighted x3). Values: structured W-bit patterns; sums c_i*(r^p)^i with many chunks c_i in {0, 1, r^p-1} for the chunk sizes p implied by the digit size and half the digit size (interior zero chunks); r^j and r^j+-1; quotient-structured values q*(r^p)^m + rem with q a structured binary pattern (zero / extreme binary digits in the running quotient); single-digit values; boundary values (MAX, MIN, -1, 0); values built from whole-digit or half-digit binary chunks that are small multiples of the conversion base r^p or miss it by one (the partial dividend of a short-division step equals the divisor). Oracle: the canonical numeral from the reference integer by repeated single-limb division (lowercase, no leading zeros, '0' for zero, '-' + magnitude for negatives; the two's-complement pattern for to_radix_be/le of signed types), plus the round trips through from_str_radix / from_radix_be / from_radix_le; out-of-range radices {0, 1, 37, 257, 258, 65536, u32::MAX} panic and in-range ones never do. A deterministic NUMERAL-LENGTH SWEEP per configuration adds r^k - 1, r^k, r^k + 1 (both signs for signed types) for every exponent k with r^k representable and the radices {10, 3, 6, 7, 12, 36, 100, 255}, and 2^b - 1, 2^(b-1) for every bit length b in decimal (base 3 as well up to 1088 bits) - all exponents and bit lengths on types up to 1088 bits, a spread selection on wider types (quick tier: about 120 decimal exponents, 16 exponents of the other radices, every 41st bit length; thorough tier: four times as many); these are the inputs on which a length estimate derived from the bit length is off by one. NON-TRIVIAL: the output has >= 3 digits. distinct = distinct (profile, job, inputs) by 64-bit hash. 8-bit configuration: all values x all radices.",
             assumptions: &[
                 "digits()/from_digits()/to_bits()/from_bits() are the trusted observation channel",
                 "reference numerals by repeated division of the reference integer by the radix (self-tested against the primitives' formatting)",
